@@ -1,4 +1,6 @@
 CONSTANTS
+  Logs = {"X"}
+  Defect = "none"
   Certs = {"x1", "x3", "p1"}
   ChainOf <- MCChainOf
   NoCache = TRUE
@@ -8,10 +10,11 @@ CONSTANTS
   Depth = 0
   Dialect = "memory"
 INIT Init
-NEXT Next
+NEXT NextLean
 VIEW StateView
 CONSTRAINT PendingBound
-INVARIANTS CacheSound CacheBounded FaultClasses
+INVARIANTS CacheSound CacheBounded FaultClasses AckedServable CacheStandsForStored
 PROPERTIES SameAsDirect FaultIsError RangeWhole LegacyUnchanged AckAfterStore CacheFromStore StoreMonotone ServableStays RestartIsCold
+  AckedIsStored GarbledLeafIsError RangeOrderIrrelevant LogsIndependent
   DedupIsSuccess FirstAddInserts AddErrorIs5xx AckNeedsLayerOk FindErrorIs5xx MissingRowIsError SoftFaultInvisible
 CHECK_DEADLOCK FALSE
